@@ -1,12 +1,1 @@
 package main
-
-import (
-	"fmt"
-)
-
-// instrumentFile is replaced by the engine-S rewriter (rewrite_s.go).
-func instrumentFile(src, dst string, rewrite bool, consts map[string]string) error {
-	return rewriteFile(src, dst, rewrite, consts)
-}
-
-var _ = fmt.Sprintf
